@@ -7,12 +7,12 @@ VF_MD(4, uint32_t, 3, 0);
 VF_MD_F(2, uint64_t, 5, 4, double);
 #elif VF_GROUP == 1
 VF_MD(3, uint32_t, 6, 4);
-VF_MD(2, uint64_t, 1, 0);
+VF_MD(2, uint64_t, 1, 2);
 VF_MD(4, uint64_t, 48, 4);
 #elif VF_GROUP == 2
 VF_MD(2, uint32_t, 64, 0);
 VF_MD(3, uint64_t, 24, 4);
-VF_MD(4, uint64_t, 4, 4);
+VF_MD(4, uint64_t, 2, 4);
 VF_MD_F(3, uint32_t, 2, 0, double);
 #else
 VF_MD(2, uint64_t, 16, 4);
